@@ -612,6 +612,58 @@ def ddmin_prefix(farm_h, zone, prefix, op, fresh_out, target_class):
     return cur
 
 
+def simplify_args(farm_h, farm_o, zone, prefix, op, target_class):
+    """Second minimisation pass: drop settings keys and optional arguments of the remaining calls
+    one at a time while the failing call still differs from its (recomputed) fresh outcome in the
+    same way.  Returns (prefix, op, observed, fresh)."""
+    def attempt(pre, o):
+        st, fr = farm_o.call("checks.c03_history:run_single", {"zone": zone, "op": o}, 300)
+        if st != "ok" or fr["out"][0] == "ctor-failed":
+            return None
+        st, val = farm_h.call("checks.c03_history:run_history", {"zone": zone, "ops": pre + [o]}, 300)
+        if st != "ok":
+            return None
+        got = val["outs"][-1]["out"]
+        if got != fr["out"] and oclass(got) == target_class:
+            return got, fr["out"]
+        return None
+
+    best = attempt(prefix, op)
+    if best is None:
+        return None
+    prefix, op = copy.deepcopy(prefix), copy.deepcopy(op)
+    calls = prefix + [op]
+    for ci in range(len(calls)):
+        c = calls[ci]
+        kwname = "kw" if "kw" in c else ("ctor" if "ctor" in c else None)
+        if kwname is None:
+            continue
+        for field in ("settings", "settings_obj"):
+            st_ = c[kwname].get(field)
+            if isinstance(st_, dict):
+                for key in sorted(st_):
+                    cand = copy.deepcopy(calls)
+                    del cand[ci][kwname][field][key]
+                    if not cand[ci][kwname][field]:
+                        del cand[ci][kwname][field]
+                    # a slot call must keep the same ctor as its new_parser op
+                    if cand[ci]["op"] == "new_parser":
+                        for o2 in cand:
+                            if o2.get("slot") == cand[ci].get("slot") and "ctor" in o2:
+                                o2["ctor"] = cand[ci]["kw"]
+                    r = attempt(cand[:-1], cand[-1])
+                    if r is not None:
+                        calls, best = cand, r
+        for opt in ("date_formats", "region", "use_given_order", "add_detected_language"):
+            if opt in calls[ci].get(kwname, {}):
+                cand = copy.deepcopy(calls)
+                del cand[ci][kwname][opt]
+                r = attempt(cand[:-1], cand[-1])
+                if r is not None:
+                    calls, best = cand, r
+    return calls[:-1], calls[-1], best[0], best[1]
+
+
 def main(args):
     tier = args.tier
     seed = seeds.base_seed(3)
@@ -735,6 +787,9 @@ def main(args):
             # the fresh outcome must itself be reproducible under the H hash seed (else it is a hash-seed effect)
             st2, f2 = farm_h.call("checks.c03_history:run_single", {"zone": pl["zone"], "op": op}, 300)
             hash_effect = st2 == "ok" and f2["out"] != fr
+            simp = simplify_args(farm_h, farm_o, pl["zone"], mini, op, oclass(got))
+            if simp is not None:
+                mini, op, got, fr = simp
             sig = make_signature(pl["zone"], mini, op, got, fr)
             if hash_effect and not mini:
                 sig["hash_seed_effect"] = True
